@@ -225,6 +225,23 @@ def run_ascii(ctx):
                         ctx.fail("zone_not_verbatim", case, f"raw_host={rh!r} re-parsed {back!r}")
                     else:
                         ctx.count("zone_kept")
+    # the same alphabet inside NON-ASCII hosts (the IDNA route), with the tails that send the encoded text down the IP-literal
+    # branch afterwards (a final digit, a ':'): an illegal ASCII character must be rejected on every route through the encoder
+    for o in range(128):
+        ch = chr(o)
+        if ch in ":%" or ch in rfc.REG_NAME_CHARS:
+            continue
+        for h in (f"é.com{ch}x1", f"é{ch}b", f"{ch}ж.рф", f"é{ch}:1", f"bücher.de{ch}9", f"é{ch}"):
+            for route, fn in (("build_host", lambda: URL.build(scheme="http", host=h)), ("with_host", lambda: base.with_host(h)), ("with_host_on_ipv6", lambda: URL("http://u:p@[::2]:8080/p").with_host(h))):
+                r = guarded(fn)
+                ctx.ev((route, "idn+ascii", o, "exc" if is_exc(r) else "ok"))
+                case = {"route": route, "host": h}
+                if not is_exc(r):
+                    ctx.fail("illegal_host_char_accepted", case, f"raw_host={guarded(lambda: r.raw_host)!r} str={guarded(str, r)!r}")
+                elif r.type != "ValueError":
+                    ctx.fail("wrong_exception", case, f"{r!r}")
+                else:
+                    ctx.count("rejected_ok")
     for h, ok in (("a%41b", True), ("a%zzb", False), ("a%4", False), ("a%", False), ("%41", True), ("a%4gb", False)):
         for route, fn in (("build_host", lambda: URL.build(scheme="http", host=h)), ("with_host", lambda: base.with_host(h))):
             r = guarded(fn)
@@ -328,7 +345,9 @@ def check_host_invariants(ctx, u, case, want_raw=None, addr=None, zone=None, cha
     else:
         rb = guarded(lambda: URL.build(scheme="http", host=dec))
         if is_exc(rb):
-            if hostm.is_reg_name(raw) or (":" in raw and all(c in rfc.REG_NAME_CHARS or c in ":%" for c in raw)):
+            # (the ':' of an address is fine, one in the ZONE is not a reg-name character: build() rejects it by design, D28)
+            addr_, _, zone_ = raw.partition("%")
+            if hostm.is_reg_name(raw) or (":" in addr_ and all(c in rfc.REG_NAME_CHARS or c == ":" for c in addr_) and all(c in rfc.REG_NAME_CHARS for c in zone_)):
                 ctx.fail("decoded_host_not_reencodable", case, f"build(host={dec!r}) raised {rb!r}")
                 ok = False
             else:
